@@ -21,6 +21,46 @@ KERNELS = ["add_11", "convolution_1", "convolution_2", "relu_3", "addmm_MatMul",
            "max_pool2d_with_indices", "convolution"]
 W = 1 << 32
 
+_POOL = None
+
+
+def host_name_pool():
+    """host-side event names the classifiers know about, harvested from the CURRENT source: plain entries of the FLEX
+    dialect table (types.py) and the name fragments tested by the reference classifier (categorize.py::classify_flex)
+    outside its collective branch"""
+    global _POOL
+    if _POOL is not None:
+        return _POOL
+    import ast
+    repo = os.environ.get("AIU_REPO", "/repo")
+    pool = []
+    try:
+        t = ast.parse(open(os.path.join(repo, "src/aiu_trace_analyzer/types.py")).read())
+        for n in ast.walk(t):
+            if isinstance(n, ast.Assign) and getattr(n.targets[0], "id", "") == "_FLEX_DIALECT" and isinstance(n.value, ast.Dict):
+                for k, v in zip(n.value.keys, n.value.values):
+                    if isinstance(v, ast.Constant) and isinstance(v.value, str) and k.value != "NAME":
+                        x = v.value
+                        if x != "-" and not x.startswith(("is.", "has.")) and x not in ("kernel", "cuda_runtime"):
+                            pool.append(x.replace("$NodeName", "node7"))
+        t = ast.parse(open(os.path.join(repo, "src/aiu_trace_analyzer/pipeline/categorize.py")).read())
+        for f in ast.walk(t):
+            if isinstance(f, ast.FunctionDef) and f.name == "classify_flex":
+                for n in ast.walk(f):
+                    if isinstance(n, ast.Compare) and isinstance(n.ops[0], (ast.In, ast.NotIn)) and isinstance(n.left, ast.Constant) \
+                            and isinstance(n.left.value, str):
+                        x = n.left.value
+                        # fragments that the dialect table matches EXACTLY (plain entries) are used verbatim only:
+                        # the dialect classifier compares them with ==, the reference classifier with `in`, and the
+                        # tool asserts that both agree - a suffixed name is outside the well-formed domain
+                        if not any(k in x for k in ("Cmpt", "Dma", "DMA", "HCOLL", "Wait", "Send", "R5", "BcList", "Xseg", "DLM")) \
+                                and x not in pool:
+                            pool.append(x + " 3")
+    except Exception:  # noqa: BLE001
+        pool = []
+    _POOL = sorted(set(pool)) or ["Execute Graph"]
+    return _POOL
+
 
 class Scenario:
     def __init__(self):
@@ -76,11 +116,16 @@ def gen_scenario(rng, ranks=None, kernels=None, host=None, wraps=True, be_ratio=
             pow_series = []
             for k in range(nk):
                 name = rng.choice(KERNELS)
-                gaps = [rng.choice([0, rng.randrange(1, 400), rng.randrange(400, 60000)]) for _ in range(4)]
+                if k > 0 and rng.random() < 0.2:
+                    gaps = list(prev_gaps)                 # twin: same phase lengths as the previous kernel (exact ties
+                    name = rng.choice([n for n in KERNELS if n != prev_name])   # in totals, durations, statistics)
+                else:
+                    gaps = [rng.choice([0, rng.randrange(1, 400), rng.randrange(400, 60000)]) for _ in range(4)]
                 if gaps[1] == 0:
                     gaps[1] = rng.randrange(1, 5000)       # Prep phase non-empty
                 if gaps[2] == 0:
                     gaps[2] = rng.randrange(1, 90000)      # Exec phase non-empty
+                prev_gaps, prev_name = list(gaps), name
                 ts = [c]
                 for g in gaps:
                     ts.append(ts[-1] + g)
@@ -106,10 +151,16 @@ def gen_scenario(rng, ranks=None, kernels=None, host=None, wraps=True, be_ratio=
                     attr["uid"] = u
                     t0, t1 = H + ts[a] / f, H + ts[b] / f
                     e = {"name": nm, "pid": r, "tid": tid, "ts": _q(t0), "attr": attr}
+                    ukeys = []
                     if user_keys and rng.random() < 0.3:
                         e["comment"] = f"user note {u}"
+                        ukeys.append("comment")
+                    if user_keys and rng.random() < 0.25:
+                        # a device event may carry an args section of its own next to attr (both are merged)
+                        e["args"] = {"unote": rng.randrange(100)}
+                        ukeys.append("args.unote")
                     s.truth[u] = {"rank": r, "kind": kw or "other", "name": nm, "true_ts": list(ts), "start": t0,
-                                  "end": t1, "device": True, "job": job, "user_keys": [k for k in ("comment",) if k in e],
+                                  "end": t1, "device": True, "job": job, "user_keys": ukeys,
                                   "charge": charge, "tid": tid}
                     evs.append((t0, t1, e))
                     if kw != "Cmpt Prep":
@@ -126,7 +177,13 @@ def gen_scenario(rng, ranks=None, kernels=None, host=None, wraps=True, be_ratio=
                 u = f"u{uid[0]}"
                 a = t_lo + rng.randrange(0, int((t_hi - t_lo) * 1024) + 1) / 1024.0
                 d = rng.choice([rng.randrange(1, 3000), rng.randrange(1, 200000)]) / 1024.0
-                nm = rng.choice(GLOBAL_NAMES) if globals_ and rng.random() < 0.2 else f"HostFn_{rng.randrange(5)}"
+                u_ = rng.random()
+                if globals_ and u_ < 0.2:
+                    nm = rng.choice(GLOBAL_NAMES)
+                elif globals_ and u_ < 0.35:
+                    nm = rng.choice(host_name_pool())
+                else:
+                    nm = f"HostFn_{rng.randrange(5)}"
                 e = {"name": nm, "pid": r, "tid": rng.choice([11, 12, 13]), "ts": _q(a), "args": {"uid": u}}
                 if user_keys and rng.random() < 0.4:
                     e["args"]["note"] = rng.randrange(100)
@@ -136,6 +193,19 @@ def gen_scenario(rng, ranks=None, kernels=None, host=None, wraps=True, be_ratio=
                               "job": job, "user_keys": [k for k in ("mykey",) if k in e] +
                               (["args.note"] if "note" in e["args"] else []), "tid": e["tid"]}
                 evs.append((a, a + d, e))
+            if overlap_depth and rng.random() < 0.3:
+                depth = rng.choice([2, 3, 4, 5, 6, 6])
+                # placed after everything else of the rank, so that its depth is exactly [depth] (the tool's limit is
+                # five extra lanes per lane = six mutually overlapping slices)
+                a0 = float(int(t_hi) + 512 + rng.randrange(0, 64))
+                for i in range(depth):
+                    uid[0] += 1
+                    u = f"u{uid[0]}"
+                    a, d = a0 + i * 0.5, 10.0
+                    e = {"name": f"Stair_{i}", "pid": r, "tid": 12, "ts": _q(a), "args": {"uid": u}}
+                    s.truth[u] = {"rank": r, "kind": "host", "name": e["name"], "start": a, "end": a + d, "device": False,
+                                  "job": job, "user_keys": [], "tid": 12}
+                    evs.append((a, a + d, e))
             if zero_dur and rng.random() < 0.3:     # documented removal rule: zero / negative duration
                 uid[0] += 1
                 u = f"u{uid[0]}"
